@@ -371,6 +371,29 @@ def register(M):
     B['call_ret'] = lambda args, kw, st, node: RET(Z(num(args[0])), Z(num(args[1])) if st.ghost.get('assign_shape', 'vec') != 'scalar' else z3.IntVal(0))
     B['draw'] = lambda args, kw, st, node: DRAWV(z3.IntVal(ROLE[args[0]]), Z(num(args[1])), Z(num(args[2])))
 
+    def b_exact_sum(args, kw, st, node):
+        L = st.deref(args[0])
+        return M.exact_sum_of(L, st)
+    B['exact_sum'] = b_exact_sum
+
+    def b_prefix_round(args, kw, st, node):
+        """prefix_round(n, ratios, i) = sum_{j<i} round(n * ratios[j])   (recursive definition, asserted once per ratio list)"""
+        from .npmodel3 import ROUND
+        n, L, i = Z(num(args[0])), st.deref(args[1]), Z(num(args[2]))
+        reg = st.ghost.get('prefix_round', ())
+        for (f0, g0) in reg:
+            if g0 is L.get:
+                return f0(n, i)
+        f = z3.Function(fresh_name('prefix_round'), z3.IntSort(), z3.IntSort(), z3.IntSort())
+        nn, ii = bvar('n'), bvar('i')
+        st.assume(forall([nn], f(nn, 0) == 0))
+        st.assume(forall([nn, ii], IMPLIES(in_range(ii, 0, L.n), f(nn, ii + 1) == f(nn, ii) + ROUND(to_real(nn) * Z(L.get(ii))))))
+        st.assume(forall([nn, ii], IMPLIES(AND(nn >= 0, in_range(ii, 0, L.n), Z(L.get(ii)) >= 0), ROUND(to_real(nn) * Z(L.get(ii))) >= 0)))
+        st.ghost['prefix_round'] = tuple(reg) + ((f, L.get),)
+        ex.use('DEF:prefix_round(n, ratios, i) = sum of round(n x ratio_j) over j < i (recursive definition)')
+        return f(n, i)
+    B['prefix_round'] = b_prefix_round
+
     def b_is_ndarray(args, kw, st, node):
         return isinstance(st.deref(args[0]), SArr)
     B['is_ndarray'] = b_is_ndarray
